@@ -134,6 +134,14 @@ TEMPLATES = [
     ((('gstar',), ('sep', '/')), '', ['a', 'a/', 'a/b', 'a/b/']),
     ((('lit', 'a'), ('sep', '/'), ('gstar',), ('sep', '/'), ('lit', 'b')), '', ['a/b', 'a/x/b', 'a/x/y/b', 'ab', 'a/b/c', 'a//b']),
     ((('gstarlong',), ('sep', '/'), ('lit', 'a')), '', ['a', 'b/a', 'b/c/a', 'ba']),
+    # adjacent globstars are one
+    ((('gstar',), ('sep', '/'), ('gstar',), ('sep', '/'), ('star',)), '', ['a', 'a/', 'a/b', '/', 'a//', 'a/b/c']),
+    ((('lit', 'a'), ('sep', '/'), ('gstar',), ('sep', '/'), ('gstar',), ('sep', '/'), ('star',)), '', ['a', 'a/', 'a//', 'a/b', 'a/b/c', 'b/a/c']),
+    ((('gstar',), ('sep', '/'), ('gstar',), ('sep', '/'), ('gstar',), ('sep', '/'), ('lit', 'a')), '', ['a', 'a/', 'b/a', 'b/c/a', 'ab']),
+    ((('lit', 'a'), ('sep', '/'), ('gstar',), ('sep', '/'), ('gstar',), ('sep', '/'), ('gstar',), ('sep', '/'), ('lit', 'b')), '', ['a/b', 'a/b/', 'a/x/b', 'a/x/y/b', 'ab']),
+    ((('lit', 'a'), ('sep', '/'), ('gstar',), ('sep', '//'), ('gstar',), ('sep', '/'), ('grp', '!', ((('lit', 'b'),),))), '', ['a/', 'a/c', 'a/b', 'a/c/b', 'a/c/d', 'a//']),
+    ((('gstarlong',), ('sep', '/'), ('gstar',), ('sep', '/'), ('gstarlong',), ('sep', '/'), ('lit', 'b')), '', ['b', 'b/', 'a/b', 'a/c/b']),
+    ((('gstar',), ('sep', '/'), ('gstarlong',), ('sep', '/'), ('q',)), '', ['a', 'a/', 'b/a', '/', 'ab']),
 ]
 
 
@@ -169,11 +177,15 @@ def run(ctx):
             with ctx.case(label=(gen.ser(toks), fn)):
                 paths = gen.path_universe(toks, ctx.rng_for('p2', idx), allow_hidden=True)
                 check_pattern(ctx, toks, fn, paths, api_sample=(idx % 16 == 0))
-    # ---- three segments (thorough), sampled -----------------------------------------------------
-    if not quick:
+    # ---- three segments, sampled (in quick: only sequences with at least two recursive segments) ------
+    if True:
+        gsegs = {(('gstar',),), (('gstarlong',),)}
         for s1, s2, s3 in itertools.product(pool, repeat=3):
             idx += 1
-            if (idx * 2654435761) % 1000 >= 30:
+            if quick:
+                if sum(1 for x in (s1, s2, s3) if x in gsegs) < 2:
+                    continue
+            elif (idx * 2654435761) % 1000 >= 30:
                 continue
             if not ctx.mine(idx):
                 continue
